@@ -78,6 +78,25 @@ class ConstValue(ConstBase):
     # TODO: We will need a proper Guppy representation of this in the future
     value: Any
 
+    def _value_key(self) -> Any:
+        """Identifies the value *as a constant*.
+
+        Python's `==` identifies `0.0` with `-0.0` (with equal hashes) and never
+        identifies `nan` with itself. Constants are used as keys when generic functions
+        are monomorphized, so `f(0.0)` and `f(-0.0)` must not share one instance.
+        """
+        if isinstance(self.value, float):
+            return (float, repr(self.value))
+        return self.value
+
+    def __eq__(self, other: object) -> bool:
+        if not isinstance(other, ConstValue):
+            return NotImplemented
+        return self.ty == other.ty and bool(self._value_key() == other._value_key())
+
+    def __hash__(self) -> int:
+        return hash(self._value_key())
+
     def cast(self) -> "Const":
         """Casts an implementor of `ConstBase` into a `Const`."""
         return self
